@@ -214,6 +214,9 @@ pub fn stats(v: &View) -> RunStats {
     for e in &out.obs.evs {
         match &e.ev {
             Ev::Metrics { pto_count, .. } if *pto_count >= 3 => bump("pto_count_ge3"),
+            Ev::Metrics { limited: true, .. } => bump("congestion_limited"),
+            Ev::KeySpaceDiscarded { .. } => bump("key_space_discarded"),
+            Ev::RetryReceived => bump("retry_received"),
             Ev::KeyUpdate { .. } => bump("key_update"),
             Ev::PacketLost { .. } => bump("packet_lost"),
             Ev::Duplicate { .. } => bump("duplicate_packet"),
@@ -761,6 +764,8 @@ pub fn evaluate(property: &str, v: &View) -> Vec<Violation> {
         "C05" => crate::oracle4::c05(v),
         "C06" => crate::oracle2::c06(v),
         "C08" => crate::oracle2::c08(v),
+        "C09" => crate::oracle8::c09(v),
+        "C10" => crate::oracle8::c10(v),
         "C11" => crate::oracle5::c11(v),
         "C12" => crate::oracle2::c12(v),
         "C13" => crate::oracle7::c13(v),
@@ -870,6 +875,7 @@ pub fn nontrivial(property: &str, v: &View, s: &RunStats) -> bool {
             let replied = v.out.net.hosts.iter().find(|h| h.idx == u32::MAX).map_or(false, |a| v.out.net.log.iter().any(|r| r.dst == a.addr));
             (big_flight && !v.out.obs.rx.is_empty()) || replied
         }
+        "C09" | "C10" => s.faults_fired > 0 && s.progress && (p("packet_lost") > 0 || p("pto_count_ge3") > 0 || p("congestion_event") > 0),
         "C13" => {
             // ids were issued beyond the handshake one and something forced a change of ids:
             // a retirement, a rebinding or a lost NEW/RETIRE_CONNECTION_ID frame
